@@ -603,6 +603,7 @@ func (p *Process) StartWith(ctx context.Context, element schema.FlowNodeInterfac
 	switch eventNode := flowNode.(type) {
 	case *startEvent:
 		eventNode.Trigger(ctx)
+		verifAt("process.start.triggered")
 
 		// StartAll cease flow monitor
 		sender := p.tracer.RegisterSender()
@@ -709,6 +710,7 @@ func (p *Process) ceaseFlowMonitor(tracer tracing.ITracer) func(ctx context.Cont
 		}
 
 		tracer.Unsubscribe(traces)
+		verifAt("process.monitor.started")
 
 		// Then, we're waiting for (2) to occur
 		waitIsOver := make(chan struct{})
@@ -718,6 +720,7 @@ func (p *Process) ceaseFlowMonitor(tracer tracing.ITracer) func(ctx context.Cont
 		}()
 		select {
 		case <-waitIsOver:
+			verifAt("process.monitor.cease")
 			// Send out a cease flow trace
 			tracer.Send(CeaseFlowTrace{Process: p.element})
 		case <-ctx.Done():
@@ -732,6 +735,7 @@ func (p *Process) WaitUntilComplete(ctx context.Context) (complete bool) {
 	go func() {
 		p.complete.Lock()
 		defer p.complete.Unlock()
+		verifAt("process.wait.locked")
 		signal <- true
 	}()
 	select {
